@@ -8,7 +8,7 @@ use serde_json::json;
 
 use crate::engine::{par_map, Report};
 
-const BODIES: [Body; 14] = [Body::SimpleStream, Body::SimpleStreamOtherWakerFirst, Body::SimpleStreamBadThenGood, Body::SampleStreamBadThenGood, Body::BareStreamBadThenGood, Body::SampleStream, Body::BareStream, Body::Mio06, Body::Mio08, Body::Mio06SecondReader, Body::AsyncWrite, Body::AsyncWaitAck, Body::AsyncWaitLost, Body::AsyncWaitFullQueue];
+const BODIES: [Body; 15] = [Body::SimpleStream, Body::SimpleStreamOtherWakerFirst, Body::SimpleStreamBadThenGood, Body::SampleStreamBadThenGood, Body::BareStreamBadThenGood, Body::SampleStream, Body::BareStream, Body::Mio06, Body::Mio08, Body::Mio06SecondReader, Body::Mio06SecondReaderHb, Body::AsyncWrite, Body::AsyncWaitAck, Body::AsyncWaitLost, Body::AsyncWaitFullQueue];
 
 #[derive(Default)]
 struct Stats {
